@@ -213,12 +213,15 @@ def main(argv):
             pairs.append((orig, FDEFS + "0\n" + var_do.split(FDEFS, 1)[1], twice, sub))
     # heap-allocated subexpressions among values the built-ins cannot order or tell apart by content alone:
     # binding one to a name changes the allocation order, never the result
-    OSUBS = ["{k: 1}", "[1, {a: 2}]", "(x => x + 1)", "{k: [1, 2], j: \"s\"}", "inputs", "[\"b\", null]"]
+    OSUBS = ["{k: 1}", "[1, {a: 2}]", "(x => x + 1)", "{k: [1, 2], j: \"s\"}", "inputs", "[\"b\", null]",
+             "[1, 0 / 0]", "{a: 0 / 0}", "[[0 / 0]]"]   # a NaN inside a container is not equal to itself
     OHOLES = ["sort([{k: 2}, %s])", "sort([%s, {k: 0}, [0]])", "unique([{k: 1}, %s, {k: 1}])", "reverse(sort([[1, {a: 2}], %s]))",
               "sort_by([[2, %s], [1, %s]], p => p[0])", "sort_by([{k: 2}, %s, {k: 0}], r => 0)", "[{k: 2}, %s] == [{k: 2}, %s]",
               "sort([(y => y), %s, (z => z)])", "includes([{k: 1}, [1, {a: 2}]], %s)", "group_by([%s, {k: 3}], r => typeof(r))",
               "[ugt(%s, {k: 0}), ult({k: 0}, %s), %s .== %s]", "flatten([[%s], sort([{q: 1}, %s])])",
-              "do {\n  u9 = sort([{k: 5}, %s])\n  return [u9, unique([%s, u9[0]])]\n}"]
+              "do {\n  u9 = sort([{k: 5}, %s])\n  return [u9, unique([%s, u9[0]])]\n}",
+              "%s .== %s", "[%s == %s, %s != %s, %s .!= %s]", "unique([%s, %s])", "includes([%s], %s)", "((v9) => v9 .== v9)(%s)",
+              "[ugte(%s, %s), ulte(%s, %s)]"]
     for sub in OSUBS:
         for hole in OHOLES:
             nh = hole.count("%s")
@@ -226,6 +229,10 @@ def main(argv):
             var = "t9fresh = " + sub + "\n" + (hole % (("t9fresh",) * nh))
             twice = "[%s, %s]\n[%s]" % (orig, orig, orig)
             pairs.append((orig, var, twice, sub))
+    for sub, pre in (("do {\n  return n9 = n9 + 1\n}", "n9 = 0\n"), ("do {\n  return k9 = 5\n}", ""),
+                     ("(() => m9 = 1)()", ""), ("do {\n  t9 = 2\n  return t9 * 2\n}", "")):
+        orig = pre + sub
+        pairs.append((orig, pre + "t9fresh = " + sub + "\nt9fresh", pre + "[%s, %s]\n[%s]" % (sub, sub, sub), sub))
     flat = []
     for o, v, t, _ in pairs:
         flat += [o, v, t]
